@@ -9,12 +9,23 @@ import (
 	"fmt"
 	"os"
 
+	"time"
+
 	"verif/internal/evid"
 	"verif/internal/l1"
+	"verif/internal/l2"
 )
 
 func main() {
 	r := evid.New("C19", "exploration")
+	nL2 := r.Pick(8, 150)
+	l2scen := func(seed int64, k int, res *l2.Result) {
+		res.Name = fmt.Sprintf("c19-l2-%d", k)
+		l2.RunSubs(l2.SubsPlanFromSeed(seed, k), res)
+	}
+	if l2.IsChild() {
+		l2.RunScenarios(r, nL2, 240*time.Second, l2scen)
+	}
 	r.Rule("the C01/C02 header sessions (reorganisations of every depth, incl. blocks whose filter headers were never committed) and the C03 filter sessions (tip and checkpointed filter batches with full/partial first intervals, reorgs between and inside rounds); per step: disconnected events == removed block headers highest-first with header/height/new-tip, received after the block store changed; connected events == newly committed filter headers in increasing height, each carrying the stored block header, received after the filter store held it; a model subscriber replaying the events ends with exactly the committed chain up to the filter tip; NotificationsSinceHeight(h) for h in {0, random, tip-1, tip, tip+1, tip+7} equals the committed blocks above h. distinct = (step kind class, #connected bucket, #disconnected bucket); non-trivial = at least one event was emitted or a backlog was non-empty")
 	r.Assume("events are observed on the block manager's own unbuffered channel (the subscription manager on top of it is C11's subject)")
 	bucket := func(n int) string {
@@ -83,6 +94,11 @@ func main() {
 			}
 		},
 	})
+	// L2 part: real block subscriptions on the complete client (subscription
+	// manager on top of the block manager) while the honest chain grows and
+	// reorganises; each subscriber replays backlog + events and must hold the
+	// committed chain at every quiescent point.
+	l2.RunScenarios(r, nL2, 240*time.Second, l2scen)
 	r.Finish(10)
 }
 
